@@ -701,4 +701,197 @@ theorem mat_ext (a b : Mat α) (hr : a.rows = b.rows) (hc : a.cols = b.cols) (ha
   · rw [List.getElem?_eq_none (by omega), List.getElem?_eq_none (by omega)]
 
 
+/-! ### dispatch -/
+
+theorem selectArm_nil (n r c : Nat) : selectArm [] n r c = none := rfl
+theorem selectArm_cons (a : Arm) (arms : List Arm) (n r c : Nat) :
+    selectArm (a :: arms) n r c =
+      if a.pat.1.admits n = true ∧ a.pat.2.1.admits r = true ∧ a.pat.2.2.admits c = true then some a else selectArm arms n r c := by
+  simp only [selectArm, List.find?]
+  cases h1 : a.pat.1.admits n <;> cases h2 : a.pat.2.1.admits r <;> cases h3 : a.pat.2.2.admits c <;> simp
+theorem admits_any (n : Nat) : Pat.any.admits n = true := rfl
+theorem admits_lit (k n : Nat) : (Pat.lit k).admits n = true ↔ k = n := by simp [Pat.admits]
+
+theorem horz_select_one (r c : Nat) :
+    ∃ arm, selectArm expectedHorzcat.arms 1 r c = some arm ∧ arm.wiring = .single ∧ arm.alloc = .none ∧
+      ∀ s ∈ arm.structs, (lookupSolve expectedSolves s == some .nop || lookupSolve expectedSolves s == some .scalar1) = true := by
+  by_cases hr : r = 1
+  · subst hr
+    by_cases hc : c = 1
+    · subst hc
+      simp only [expectedHorzcat, selectArm_cons, admits_any, admits_lit, true_and, and_true, and_self, if_true]
+      exact ⟨_, rfl, rfl, rfl, by decide⟩
+    · have hc' : ¬ 1 = c := fun h => hc h.symm
+      simp only [expectedHorzcat, selectArm_cons, admits_any, admits_lit, true_and, and_true, and_self, hc', and_false, if_false, if_true]
+      exact ⟨_, rfl, rfl, rfl, by decide⟩
+  · have hr' : ¬ 1 = r := fun h => hr h.symm
+    simp only [expectedHorzcat, selectArm_cons, admits_any, admits_lit, true_and, and_true, hr', false_and, and_false, if_false, if_true]
+    exact ⟨_, rfl, rfl, rfl, by decide⟩
+
+theorem horz_select_row (n c : Nat) (hn : 2 ≤ n) :
+    selectArm expectedHorzcat.arms n 1 c = some ⟨(.any, .lit 1, .any), ["HorizontalConcatenateRDN"], .rd .cols, .byKind .cols 1⟩ := by
+  have h1 : ¬ 1 = n := by omega
+  simp only [expectedHorzcat, selectArm_cons, admits_any, admits_lit, true_and, and_true, h1, false_and, if_false, if_true]
+
+theorem horz_select_mat (n r c : Nat) (hn : 2 ≤ n) (hr : r ≠ 1) :
+    selectArm expectedHorzcat.arms n r c =
+      if n = 2 then some ⟨(.lit 2, .any, .any), ["HorizontalConcatenateTwoArgs"], .md .rows .cols, .fields [0, 1]⟩
+      else if n = 3 then some ⟨(.lit 3, .any, .any), ["HorizontalConcatenateThreeArgs"], .md .rows .cols, .fields [0, 1, 2]⟩
+      else if n = 4 then some ⟨(.lit 4, .any, .any), ["HorizontalConcatenateFourArgs"], .md .rows .cols, .fields [0, 1, 2, 3]⟩
+      else some ⟨(.any, .any, .any), ["HorizontalConcatenateNArgs"], .md .rows .cols, .inOrder⟩ := by
+  have h1 : ¬ 1 = n := by omega
+  have h2 : ¬ 1 = r := fun h => hr h.symm
+  simp only [expectedHorzcat, selectArm_cons, admits_any, admits_lit, true_and, and_true, h1, h2, false_and, and_false, if_false, if_true,
+    eq_comm (a := n)]
+
+
+theorem allMats_of_rows : ∀ (args : List (Operand α)), (∀ x ∈ args, (blockOf x).rows ≠ 1) →
+    allMats args = .ok (args.map blockOf) := by
+  intro args
+  induction args with
+  | nil => intro _; rfl
+  | cons a as ih =>
+    intro h
+    have := ih (fun x hx => h x (List.mem_cons_of_mem _ hx))
+    cases a with
+    | scalar x => exact absurd rfl (h (.scalar x) List.mem_cons_self)
+    | mat m => simp only [allMats, asMat, this, List.map_cons, blockOf]
+
+theorem flatMap_data_length (R : Nat) : ∀ (es : List (Mat α)), (∀ e ∈ es, Mat.wf' e) → (∀ e ∈ es, e.rows = R) →
+    (es.flatMap (·.data)).length = R * sumCols es := by
+  intro es
+  induction es with
+  | nil => intro _ _; simp [sumCols]
+  | cons e es ih =>
+    intro hwf hr
+    have he : e.data.length = e.rows * e.cols := hwf e List.mem_cons_self
+    rw [hr e List.mem_cons_self] at he
+    simp only [List.flatMap_cons, List.length_append, he, sumCols, List.map_cons, List.sum_cons, Nat.mul_add]
+    rw [ih (fun x hx => hwf x (List.mem_cons_of_mem _ hx)) (fun x hx => hr x (List.mem_cons_of_mem _ hx))]
+    rfl
+
+theorem chunk_length_of_rows1 (x : Operand α) (hw : Mat.wf' (blockOf x)) (h1 : (blockOf x).rows = 1) :
+    (chunk x).length = (blockOf x).cols := by
+  simp only [chunk]; rw [hw, h1, Nat.one_mul]
+
+theorem flatMap_chunk_length (f : Mat α → Nat) : ∀ (args : List (Operand α)),
+    (∀ x ∈ args, (chunk x).length = f (blockOf x)) → (args.flatMap chunk).length = ((args.map blockOf).map f).sum := by
+  intro args
+  induction args with
+  | nil => intro _; rfl
+  | cons a as ih =>
+    intro h
+    simp only [List.flatMap_cons, List.length_append, List.map_cons, List.sum_cons, h a List.mem_cons_self,
+      ih (fun x hx => h x (List.mem_cons_of_mem _ hx))]
+
+theorem flatMap_chunk (args : List (Operand α)) : args.flatMap chunk = (args.map blockOf).flatMap (·.data) := by
+  induction args with
+  | nil => rfl
+  | cons a as ih => simp only [List.flatMap_cons, List.map_cons, ih, chunk]
+
+section run
+variable (impl : Routine → Mat α → Mat α → Nat → Except Err (Mat α × Nat))
+  (himpl : ∀ r m dst off, Mat.wf' m → impl r m dst off = modelImpl r m dst off)
+include himpl
+
+/-- the matrix kernels of `horzcat`: every block copied behind the one before fills the buffer with the blocks' elements -/
+theorem horz_mats_core (d : α) (R : Nat) (es : List (Mat α)) (hwf : ∀ e ∈ es, Mat.wf' e) (hr : ∀ e ∈ es, e.rows = R) :
+    mapE (runLoop impl ⟨0, .copy_into, .offset, .add⟩ es (⟨R, sumCols es, List.replicate (R * sumCols es) d⟩, 0)) (·.1)
+      = .ok ⟨R, sumCols es, es.flatMap (·.data)⟩ := by
+  have hlen := flatMap_data_length R es hwf hr
+  have := runLoop_lin impl himpl .copy_into rfl 0 es [] (List.replicate (R * sumCols es) d) [] R (sumCols es) hwf
+    (by rw [hlen, List.length_replicate]; exact Nat.le_refl _)
+  simp only [List.nil_append, List.append_nil, List.length_nil] at this
+  rw [this]
+  simp only [mapE, Except.ok.injEq, Mat.mk.injEq, true_and]
+  rw [List.drop_eq_nil_of_le (by rw [hlen, List.length_replicate]; exact Nat.le_refl _), List.append_nil]
+
+
+/-- the vector kernels (`…RDN`, `…VDN`): matrices copied to their recorded places, then the scalars written to theirs,
+    fill the buffer with the blocks' elements in the order of the arguments -/
+theorem indexed_core (d : α) (r : Routine) (hr : r.linear = true) (madv : Dim) (R C L : Nat) (args : List (Operand α))
+    (hwf : ∀ x ∈ args, Mat.wf' (blockOf x)) (hadv : ∀ x ∈ args, advOf madv 1 x = (chunk x).length)
+    (hlen : (args.flatMap chunk).length = L) :
+    bindE (copyMats impl r (indexArgs madv 1 0 args) ⟨R, C, List.replicate L d⟩) (writeScalars (indexArgs madv 1 0 args))
+      = .ok ⟨R, C, args.flatMap chunk⟩ := by
+  have h1 := copyMats_overlay impl himpl r hr madv 1 args [] (List.replicate L d) [] R C hadv hwf
+    (by rw [hlen, List.length_replicate]; exact Nat.le_refl _)
+  simp only [List.nil_append, List.append_nil, List.length_nil] at h1
+  have hl2 : (args.flatMap chunk).length ≤ (overlayMats args (List.replicate L d)).length := by
+    rw [overlayMats_length _ _ (by rw [hlen, List.length_replicate]; exact Nat.le_refl _), hlen, List.length_replicate]
+    exact Nat.le_refl _
+  have h2 := writeScalars_overlay madv 1 args [] (overlayMats args (List.replicate L d)) [] R C hadv hl2
+  simp only [List.nil_append, List.append_nil, List.length_nil] at h2
+  rw [h1, bindE_ok, h2, overlay_final _ _ (by rw [List.length_replicate, hlen])]
+
+theorem horzcat_as_written (d : α) (a : Operand α) (as : List (Operand α))
+    (hwf : ∀ x ∈ a :: as, Mat.wf' (blockOf x)) (hrows : ∀ x ∈ as, (blockOf x).rows = (blockOf a).rows) :
+    evalCat impl expectedHorzcat expectedSolves d (a :: as) = hcatAll (blockOf a) (as.map blockOf) := by
+  rw [hcatAll_data _ _ (by simpa using hrows)]
+  have hr : expectedHorzcat.rows.eval ((a :: as).map blockOf) = (blockOf a).rows := rfl
+  have hc : expectedHorzcat.cols.eval ((a :: as).map blockOf) = (blockOf a).cols + sumCols (as.map blockOf) := by
+    simp [expectedHorzcat, Agg.eval, sumCols, Dim.of]
+  have hrows' : ∀ x ∈ a :: as, (blockOf x).rows = (blockOf a).rows := by
+    intro x hx
+    cases List.mem_cons.mp hx with
+    | inl e => rw [e]
+    | inr h => exact hrows x h
+  simp only [evalCat, hr, hc]
+  cases as with
+  | nil =>
+    obtain ⟨arm, hsel, hw, hal, hst⟩ := horz_select_one (blockOf a).rows ((blockOf a).cols + sumCols ([].map blockOf : List (Mat α)))
+    simp only [List.length_singleton, hsel, hw, hal, Alloc.buffer, List.all_eq_true.mpr hst, if_true]
+    simp [sumCols]
+  | cons b bs =>
+    by_cases h1 : (blockOf a).rows = 1
+    · rw [h1, horz_select_row _ _ (by simp only [List.length_cons]; omega)]
+      have hl : lookupSolve expectedSolves "HorizontalConcatenateRDN" = some (.indexed .copy_into_r) := by decide
+      simp only [Alloc.buffer, Dim.pick, hl]
+      have hlen : ((a :: b :: bs).flatMap chunk).length = (blockOf a).cols + sumCols ((b :: bs).map blockOf) := by
+        rw [flatMap_chunk_length (·.cols) _ (fun x hx => chunk_length_of_rows1 x (hwf x hx) (by rw [hrows' x hx, h1]))]
+        simp [sumCols]
+      rw [indexed_core impl himpl d .copy_into_r rfl .cols 1 _ _ (a :: b :: bs) hwf ?_ hlen]
+      · simp [flatMap_chunk, chunk]
+      · intro x hx
+        cases x with
+        | scalar y => rfl
+        | mat m =>
+          have := chunk_length_of_rows1 (.mat m) (hwf _ hx) (by rw [hrows' _ hx, h1])
+          simp only [advOf, Dim.of, this, blockOf]
+    · have hne : ∀ x ∈ a :: b :: bs, (blockOf x).rows ≠ 1 := fun x hx => by rw [hrows' x hx]; exact h1
+      have hall := allMats_of_rows _ hne
+      have hC : (blockOf a).cols + sumCols ((b :: bs).map blockOf) = sumCols ((a :: b :: bs).map blockOf) := by simp [sumCols]
+      have hcore := horz_mats_core impl himpl d (blockOf a).rows ((a :: b :: bs).map blockOf)
+        (fun e he => by obtain ⟨x, hx, rfl⟩ := List.mem_map.mp he; exact hwf x hx)
+        (fun e he => by obtain ⟨x, hx, rfl⟩ := List.mem_map.mp he; exact hrows' x hx)
+      have hdata : (blockOf a).data ++ ((b :: bs).map blockOf).flatMap (·.data) = ((a :: b :: bs).map blockOf).flatMap (·.data) := by
+        simp
+      rw [horz_select_mat _ _ _ (by simp only [List.length_cons]; omega) h1, hC, hdata]
+      have l2 : lookupSolve expectedSolves "HorizontalConcatenateTwoArgs" = some (.seq (seqOf .copy_into 2)) := by decide
+      have l3 : lookupSolve expectedSolves "HorizontalConcatenateThreeArgs" = some (.seq (seqOf .copy_into 3)) := by decide
+      have l4 : lookupSolve expectedSolves "HorizontalConcatenateFourArgs" = some (.seq (seqOf .copy_into 4)) := by decide
+      have ln : lookupSolve expectedSolves "HorizontalConcatenateNArgs" = some (.loop 0 ⟨0, .copy_into, .offset, .add⟩) := by decide
+      match bs, hall, hcore with
+      | [], hall, hcore =>
+        simp only [List.length_cons, List.length_nil, if_true, Alloc.buffer, Dim.pick, l2, List.map_cons, List.map_nil,
+          List.getElem?_cons_zero, List.getElem?_cons_succ, Option.getD_some, hall, runSeq2]
+        exact hcore
+      | [c], hall, hcore =>
+        have hn : (a :: b :: [c]).length = 3 := rfl
+        simp only [hn, (by decide : ¬ (3 : Nat) = 2), if_false, if_true, Alloc.buffer, Dim.pick, l3, List.map_cons, List.map_nil,
+          List.getElem?_cons_zero, List.getElem?_cons_succ, Option.getD_some, hall, runSeq3]
+        exact hcore
+      | [c, e], hall, hcore =>
+        have hn : (a :: b :: [c, e]).length = 4 := rfl
+        simp only [hn, (by decide : ¬ (4 : Nat) = 2), (by decide : ¬ (4 : Nat) = 3), if_false, if_true, Alloc.buffer, Dim.pick, l4, List.map_cons, List.map_nil,
+          List.getElem?_cons_zero, List.getElem?_cons_succ, Option.getD_some, hall, runSeq4]
+        exact hcore
+      | c :: e :: f :: rest, hall, hcore =>
+        have h2 : ¬ rest.length + 1 + 1 + 1 + 1 + 1 = 2 := by omega
+        have h3 : ¬ rest.length + 1 + 1 + 1 + 1 + 1 = 3 := by omega
+        have h4 : ¬ rest.length + 1 + 1 + 1 + 1 + 1 = 4 := by omega
+        simp only [List.length_cons, h2, h3, h4, if_false, Alloc.buffer, Dim.pick, ln, hall]
+        exact hcore
+
+end run
 end MechVerif.ConcatIR
